@@ -212,6 +212,9 @@ Definition slice (off len : Z) (bs : list Z) : list Z :=
 Definition same_layout (p q : period_t) : bool :=
   (p_nx p =? p_nx q) && (p_ny p =? p_ny q)
   && list_eqb (fun a b => Nat.eqb (length (l_vars a)) (length (l_vars b))) (p_levels p) (p_levels q).
+(* ... and the same keys (the library names the records of every period after the first table) *)
+Definition same_keys (p q : period_t) : bool :=
+  list_eqb (fun a b => zll_eqb (map v_key (l_vars a)) (map v_key (l_vars b))) (p_levels p) (p_levels q).
 
 (* ---- what the library does (arlpackedbit) ---------------------------------------------- *)
 (* layout numbers used by the library; the instances with the generated (tie T) definitions
@@ -231,7 +234,7 @@ Definition float_ok (t : list Z) : bool :=
   forallb (fun c => is_digit c || (c =? 46)) s
   && (1 <=? lenZ (filter is_digit s)) && (lenZ (filter (fun c => c =? 46) s) <=? 1).
 
-(* readvardef: level entries until the rest is blank *)
+(* readvardef: level entries until the rest is blank (repaired reader: vheader is exactly the table) *)
 Fixpoint readvardef (fuel : nat) (vh : list Z) : option (list (list Z * list (list Z * Z))) :=
   if blank vh then Some [] else
   match fuel with
@@ -285,21 +288,22 @@ Definition impl_read (sz : libsizes) (bs : list Z) : option libview :=
   let g := slice (ls_off_grid sz) 2 bs in
   let nx := nx0 + Z.max 0 ((nth 0 g 0 - 64) * 1000) in
   let ny := ny0 + Z.max 0 ((nth 1 g 0 - 64) * 1000) in
-  let vh := slice (ls_thd sz) lh bs in
+  let tl_ := lh - 108 in                          (* the table is LENH - 108 bytes long *)
+  let vh := slice (ls_thd sz) tl_ bs in
   do tbl <- readvardef (length vh) vh;
   match tbl with
   | [] => None
   | (sfctxt, sfces) :: lays =>
       let nc := nx * ny in
-      let hdrlen := 50 + nc - lh - ls_thd sz in
-      do _ <- guard (0 <=? hdrlen);
+      let hdrlen := 50 + nc - tl_ - ls_thd sz in
+      do _ <- guard ((0 <=? tl_) && (0 <=? hdrlen));
       let rl := ls_vhd sz + nc in
       let nrec := sumZ (map (fun l => lenZ (snd l)) tbl) in
-      let item := ls_thd sz + lh + hdrlen + nrec * rl in
+      let item := ls_thd sz + tl_ + hdrlen + nrec * rl in
       do _ <- guard ((0 <? lenZ bs) && (lenZ bs mod item =? 0));
-      do _ <- guard ((3 <=? nx) && (3 <=? ny));       (* lat-lon cell-bounds code in __init__ *)
+      do _ <- guard ((2 <=? nx) && (2 <=? ny));       (* lat-lon cell-edge code in __init__ uses np.diff(x)[0] *)
       let nt := Z.to_nat (lenZ bs / item) in
-      let base t := Z.of_nat t * item + ls_thd sz + lh + hdrlen in
+      let base t := Z.of_nat t * item + ls_thd sz + tl_ + hdrlen in
       let sfckeys := map fst sfces in
       let laykeys := dedup [] (concat (map (fun l => map fst (snd l)) lays)) in
       let var_of k :=
@@ -317,9 +321,10 @@ Definition impl_read (sz : libsizes) (bs : list Z) : option libview :=
 
 (* library record offset of (time t, data record j), as the memmap dtype lays it out *)
 Definition lib_offset (sz : libsizes) (nc lh nrec : Z) (t : nat) (j : Z) : Z :=
-  let hdrlen := 50 + nc - lh - ls_thd sz in
+  let tl_ := lh - 108 in
+  let hdrlen := 50 + nc - tl_ - ls_thd sz in
   let rl := ls_vhd sz + nc in
-  Z.of_nat t * (ls_thd sz + lh + hdrlen + nrec * rl) + ls_thd sz + lh + hdrlen + j * rl.
+  Z.of_nat t * (ls_thd sz + tl_ + hdrlen + nrec * rl) + ls_thd sz + tl_ + hdrlen + j * rl.
 
 (* ---- what an ideal reader with the library's interface returns for a content ------------ *)
 Definition rec_of (v : var_t) : librec := (v_exp v, v_var1 v, v_data v).
@@ -346,11 +351,14 @@ Definition spec_view (ps : list period_t) : option libview :=
       end
   end.
 
-(* the domain on which the library is expected to read a spec file: room for the library's
-   over-long table field, at least 3x3 cells (lat-lon bounds code), no key shared between the
-   surface level and the upper levels *)
-Definition lib_room (p : period_t) : bool := lenh p + 108 <=? ncell p.
-Definition lib_grid_ok (p : period_t) : bool := (3 <=? p_nx p) && (3 <=? p_ny p).
+(* the domain on which the library is expected to read a spec file: at least 2x2 cells (the
+   lat-lon cell-edge code needs one neighbour difference per axis), grid id without the
+   thousands letter, level heights that float() accepts, no key shared between the surface
+   level and the upper levels *)
+Definition lib_grid_ok (p : period_t) : bool :=
+  (2 <=? p_nx p) && (2 <=? p_ny p) && (nth 0 (p_grid p) 0 <=? 64) && (nth 1 (p_grid p) 0 <=? 64).
+Definition lvl_texts_ok (p : period_t) : bool :=
+  forallb (fun l => float_ok (l_text l) && negb (blank (l_text l))) (p_levels p).
 Definition keys_disjoint (p : period_t) : bool :=
   match p_levels p with
   | [] => true
